@@ -11,6 +11,9 @@ class NoFold( Exception ):
     pass
 
 
+_SAFE_BUILTINS = { 'str': str, 'int': int, 'len': len, 'max': max, 'min': min, 'bool': bool, 'abs': abs, 'tuple': tuple, 'list': list }
+
+
 def fold( e, env=None ):
     """value of a constant expression; names looked up in env (dict or callable name -> value); raises NoFold"""
     if isinstance( e, ast.Constant ):
@@ -72,6 +75,29 @@ def fold( e, env=None ):
             return sep.join( parts )
         except Exception as exc:
             raise NoFold( str( exc ))
+    if isinstance( e, ast.Call ) and isinstance( e.func, ast.Name ) and e.func.id in _SAFE_BUILTINS and not e.keywords:
+        args = [ fold( a, env ) for a in e.args ]
+        try:
+            return _SAFE_BUILTINS[e.func.id]( *args )
+        except Exception as exc:
+            raise NoFold( str( exc ))
+    if isinstance( e, ast.Call ) and isinstance( e.func, ast.Attribute ) and e.func.attr == 'format' and isinstance( e.func.value, ast.Constant ) and isinstance( e.func.value.value, str ):
+        try:
+            return e.func.value.value.format( *[ fold( a, env ) for a in e.args ], **{ k.arg: fold( k.value, env ) for k in e.keywords } )
+        except NoFold:
+            raise
+        except Exception as exc:
+            raise NoFold( str( exc ))
+    if isinstance( e, ast.JoinedStr ):
+        out = ''
+        for v in e.values:
+            if isinstance( v, ast.Constant ):
+                out += str( v.value )
+            elif isinstance( v, ast.FormattedValue ) and v.format_spec is None and v.conversion == -1:
+                out += str( fold( v.value, env ))
+            else:
+                raise NoFold( 'fstring' )
+        return out
     if isinstance( e, ( ast.Name, ast.Attribute )) and env is not None:
         from .core import dotted
         d = dotted( e )
